@@ -425,6 +425,22 @@ FkEmbeddedF(kinds, hk, fin, fork) ==
                                     FkResF(CHOOSE j \in 1..4 : RN[j] = i, kinds, hk, fin, TRUE, fork)]]
                      @@ FkBodyF(0, hk, fin, fork)]>>]
 FkForkCases(z) == {FkEmbeddedF(kinds, "ref", fin, fork) : kinds \in FkKindSets, fin \in FkFinals, fork \in {"anyOf", "contains"}}
+\* failed branches: an applicator that goes on after a failure (anyOf, oneOf, not, if) first tries a branch whose
+\* property subschemas ARE resources r1 (under p) and r2 (under q) declaring the anchor on their roots - each
+\* accepts only its own mark, so one or both fail - and then enters r3, whose $dynamicRef must see only the
+\* resources that are still being evaluated (root, r3): never r1 or r2, whichever of them failed first
+FkFailRes(i, kind) == [id |-> IdOf(RelRef(<<RN[i]>>))] @@ TNode(kind, i)
+FkFailDoc(kinds, fork) ==
+  LET A == [properties |-> [p |-> FkFailRes(1, kinds[2]), q |-> FkFailRes(2, kinds[3])]]
+      B == HopTo(3, "ref")
+      R3 == [id |-> IdOf(RelRef(<<RN[3]>>)), defs |-> [t |-> [dynamicAnchor |-> "n", type |-> "object"]],
+             dynamicRef |-> LocalRef(FragName("n"))]
+      body == CASE fork = "anyOf" -> [anyOf |-> <<A, B>>]
+                [] fork = "oneOf" -> [oneOf |-> <<A, B>>]
+                [] fork = "not"   -> [allOf |-> <<[not |-> A], B>>]
+                [] fork = "if"    -> [if |-> A, then |-> [required |-> <<"p">>], else |-> B]
+  IN [docs |-> <<[uri |-> DyRootURI, s |-> [defs |-> (RN[3] :> R3) @@ [t |-> TNode(kinds[1], 0)]] @@ body]>>]
+FkFailCases(z) == {FkFailDoc(kinds, fork) : kinds \in [1..3 -> {"dyn", "none"}], fork \in {"anyOf", "oneOf", "not", "if"}}
 FkCases(z) ==
   UNION {{FkEmbedded(kinds, hk, fin), FkRemote(kinds, hk, fin)} :
            kinds \in FkKindSets, hk \in (IF K >= 2 THEN {"ref", "allOf", "dref"} ELSE {"ref"}), fin \in FkFinals}
@@ -534,6 +550,26 @@ G5Docs(z) == {[docs |-> <<[uri |-> RootURI, s |-> r @@ [schema |-> v]], [uri |->
              \cup {[docs |-> <<[uri |-> RootURI, s |-> r @@ [schema |-> v]], [uri |-> HopURI, s |-> h], [uri |-> RemURI, s |-> m]>>] :
                  r \in {[ref |-> HopRef(FragNone)], [properties |-> [a |-> [ref |-> HopRef(FragNone)]]], [items |-> [ref |-> HopRef(FragNone)]]},
                  v \in {D7http}, h \in Rem2Hop, m \in G5Rem0}
+\* MX: documents of DIFFERENT supported dialects in one universe (a 2020-12 or dialect-less root loading a document
+\* that declares draft-07, a draft-07 root loading one that declares 2020-12), the loaded document using keywords of the
+\* other dialect ($dynamicRef / $dynamicAnchor / $anchor in a draft-07 document, fragment-only $id, array-form items and
+\* dependencies in a 2020-12 one).  No property fixes the reading of such a universe, so there is NO prediction ("?");
+\* what every property still demands is a result: a value or an error from Resolve and from every Validate (C10),
+\* the same one every time (C14).
+MxRemBodies == {[definitions |-> [str |-> [type |-> "string"]], dynamicRef |-> LocalRef(FragPtr(<<SegN("definitions", "str")>>))],
+                [defs |-> [t |-> [dynamicAnchor |-> "n", type |-> "string"]], dynamicRef |-> LocalRef(FragName("n"))],
+                [dynamicAnchor |-> "n", properties |-> [a |-> [dynamicRef |-> LocalRef(FragName("n"))]]],
+                [defs |-> [x |-> IntS @@ [anchor |-> "foo"]], ref |-> LocalRef(FragName("foo"))],
+                [definitions |-> [x |-> IntS @@ [id |-> IdFrag("foo")]], ref |-> LocalRef(FragName("foo")), maximum |-> R_0],
+                [itemsArray |-> <<IntS>>, additionalItems |-> FalseS], [depStrings |-> [a |-> <<"b">>]],
+                [prefixItems |-> <<IntS>>, items |-> FalseS, unevaluatedProperties |-> FalseS],
+                [dynamicRef |-> Ref(RelRef(<<"root.json">>), FragName("n"))]}
+MxRoots == {[ref |-> RemRef(FragNone)], [properties |-> [a |-> [ref |-> RemRef(FragNone)]]],
+            [defs |-> [t |-> [dynamicAnchor |-> "n", type |-> "integer"]], items |-> [ref |-> RemRef(FragNone)]],
+            [defs |-> [t |-> [dynamicAnchor |-> "n"]], dynamicRef |-> RemRef(FragName("n"))]}
+MxDocs(z) == {[docs |-> <<[uri |-> RootURI, s |-> r @@ rv], [uri |-> RemURI, s |-> m @@ [schema |-> mv]]>>] :
+                r \in MxRoots, m \in MxRemBodies,
+                rv \in {<<>>, [schema |-> D2020], [schema |-> D7http]}, mv \in {D7http, D7https, D2020}}
 Cases ==
   CASE Family = "F1" -> WithSchema(F1Schemas(0))
     [] Family = "F2" -> WithSchema(F2Schemas(0))
@@ -550,8 +586,9 @@ Cases ==
     [] Family = "G4" -> G4Docs(0)
     [] Family = "G5" -> {u \in G5Docs(0) : ResolveOK(u, "d7")}
     [] Family = "DY" -> DyCases(0) \cup DyMixedCases(0)
-    [] Family = "FK" -> FkCases(0) \cup FkForkCases(0)
+    [] Family = "FK" -> FkCases(0) \cup FkForkCases(0) \cup FkFailCases(0)
     [] Family = "DUP" -> DupCases(0)
+    [] Family = "MX" -> MxDocs(0)
 InstSet ==
   CASE Family = "F1" -> ScalarVals
     [] Family = "F2" -> ArrVals
@@ -570,6 +607,8 @@ InstSet ==
     [] Family = "DY" -> DyVals
     [] Family = "FK" -> FkVals
     [] Family = "DUP" -> {Null, Num(R_1), Num(R_3), Str("a"), Obj([a |-> Num(R_1)]), Obj([a |-> Str("a")]), Obj([a |-> Null])}
+    [] Family = "MX" -> {Null, Num(R_1), Str("a"), Obj([a |-> Num(R_1)]), Obj([a |-> Str("a")]), Obj([a |-> Obj([a |-> Num(R_1)])]),
+                         Arr(<<Num(R_1)>>), Arr(<<Str("a"), Num(R_1)>>), Arr(<<Obj([a |-> Str("a")])>>)}
 
 Insts == SetToSeq(InstSet)
 
@@ -589,7 +628,7 @@ ROK(U) == DrOf(U) = "refused" \/ ResolveOK(U, DrOf(U))
 Next == /\ phase = "new"
         /\ phase' = "done"
         /\ cs' = cs
-        /\ res' = IF ~ROK(cs) THEN <<>>
+        /\ res' = IF Family = "MX" THEN [i \in DOMAIN Insts |-> Skip] ELSE IF ~ROK(cs) THEN <<>>
                   ELSE [i \in DOMAIN Insts |->
                           IF InDomain(cs, Insts[i]) THEN EvTop(cs, Insts[i]) ELSE Skip]
 
@@ -598,7 +637,7 @@ Spec == Init /\ [][Next]_vars
 \* Every universe is inside the property's quantifier: all references designate.
 \* (family DY deliberately contains references that designate nothing: there the
 \* prediction is that Resolve fails)
-Wellformed == (phase = "new" /\ Family \notin {"DY", "DUP", "FK"}) => ROK(cs)
+Wellformed == (phase = "new" /\ Family \notin {"DY", "DUP", "FK", "MX"}) => ROK(cs)
 
 \* L1 (code-shaped) refines L0 (specification-shaped): same verdict, and on
 \* success the compressed annotations denote the specification's sets.
@@ -612,9 +651,10 @@ Refines ==
               /\ DenItems(c.anns, Insts[i]) = e.items
               /\ DenProps(c.anns, Insts[i]) = e.props
 
-Verdicts == [i \in DOMAIN res |-> IF Family = "DUP" THEN "?" ELSE IF res[i] = Skip THEN "x" ELSE IF res[i].ok THEN "T" ELSE "F"]
-Targets == IF DrOf(cs) # "refused" /\ ROK(cs) /\ Family # "DUP" THEN SetToSeq(DesignatedTargets(cs, DrOf(cs))) ELSE <<>>
-Emit == phase = "done" => PrintT(<<"CASE", ToJson([u |-> cs, exp |-> Verdicts, dr |-> DrOf(cs), res |-> IF ROK(cs) THEN "ok" ELSE "err",
+NoPred == Family \in {"DUP", "MX"}
+Verdicts == [i \in DOMAIN res |-> IF NoPred THEN "?" ELSE IF res[i] = Skip THEN "x" ELSE IF res[i].ok THEN "T" ELSE "F"]
+Targets == IF ~NoPred /\ DrOf(cs) # "refused" /\ ROK(cs) THEN SetToSeq(DesignatedTargets(cs, DrOf(cs))) ELSE <<>>
+Emit == phase = "done" => PrintT(<<"CASE", ToJson([u |-> cs, exp |-> Verdicts, dr |-> DrOf(cs), res |-> IF Family = "MX" THEN "?" ELSE IF ROK(cs) THEN "ok" ELSE "err",
                                                    targets |-> Targets])>>)
 
 ASSUME PrintT(<<"INSTS", ToJson(Insts)>>)
